@@ -25,6 +25,7 @@ ASSUMPTIONS = [
     "ignored sections carry no CRC / REBOOT; loader sections always name an interface; peripheral sections use one-entry or special-case filters",
 ]
 TIMEOUT = {"quick": 900, "thorough": 8 * 3600}
+OPTIMIZED_SHARDS = ("imp00",)  # these shards also run under python -O
 NSH = 16
 REJECT_CLASSES = ["zero_length_line_then_gap", "gap_first", "gap_middle", "gap_before_last_line", "overlap", "nonzero_start", "unknown_tagtype", "page_tagtype_without_base", "no_bf3_marker", "unknown_tagtype_as_continuation_group", "unknown_tagtype_line_inside_group"]
 
